@@ -146,7 +146,12 @@ pub fn main(tier: Tier) -> ! {
             }
             let inp = [descriptors(s)];
             for (rname, e) in renderings(s) {
-                for (_cname, c) in &cons {
+                for (cname, c) in &cons {
+                    if rname == "foreach-source" && cname.starts_with("path(") {
+                        // the init `0` is not a path expression; whether the source is touched before
+                        // that error is raised is not ordered by the manual (see C01, fold sources)
+                        continue;
+                    }
                     let prog = c(e.clone());
                     // the library iterator is dropped after k items, for every k up to the stream length + 1
                     // (k >= 1: the property speaks of the k-th output; what runs before the first pull is
